@@ -78,7 +78,8 @@ Theorem C06_group_grammar_tokenize_end_to_end :
         exists re, regex_new true xpath (show_a a) fls = Ok re
           /\ (r_nullable re = false ->
               exists l, tok_all (matches (r_prog re) input) input (S (S (S (length input)))) {| t_prev := Some 0; t_ms := st0 |} = Ok l
-                        /\ length l <= length input + 1)
+                        /\ length l <= length input + 1
+                        /\ l = pieces input (scan (matches (r_prog re) input) input (S (S (length input))) 0 st0) 0)
     | _ => True
     end.
 Proof. exact grammar_tokenize_end_to_end. Qed.
